@@ -175,6 +175,25 @@ class Facts:
             rds = PV.reaching(fn, sc, e.id, cond)
         except AnalysisError:
             return []
+        if len(rds) > 1 and all(x.kind == "assign" and isinstance(x.value, ast.Constant) for x in rds):
+            # a flag set to constants (found = False ... found = True; break): testing it selects the definitions of that truth value;
+            # with exactly one such definition, what was known when it ran is known at the test (operands not re-bound in between)
+            sel = [x for x in rds if bool(x.value.value) == truth]
+            if len(sel) != 1 or getattr(self, "_flag_depth", 0) > 2:
+                return []
+            d = sel[0]
+            self._flag_depth = getattr(self, "_flag_depth", 0) + 1
+            try:
+                held = self.local(fn, sc, d.cnode)
+            finally:
+                self._flag_depth -= 1
+            out = []
+            for f in held:
+                names = {n.id for part in ((f.left, f.right) if f.kind == "cmp" else (f.expr,)) for n in ast.walk(part)
+                         if isinstance(n, ast.Name) and isinstance(n.ctx, ast.Load)}
+                if self._stable_between(fn, sc, names, d.cnode, cond):
+                    out.append(f)
+            return out
         if len(rds) != 1 or rds[0].kind != "assign" or rds[0].value is None:
             return []
         d = rds[0]
@@ -185,7 +204,27 @@ class Facts:
                 b = {x.cnode.id for x in PV.reaching(fn, sc, n.id, cond)}
                 if a != b:
                     return []
+        if not self._stable_between(fn, sc, {n.id for n in ast.walk(val) if isinstance(n, ast.Name) and isinstance(n.ctx, ast.Load)}, d.cnode, cond):
+            return []
         return self._derive(truth, val, fn, sc, d.cnode, depth)
+
+    def _stable_between(self, fn, sc, names, frm, to):
+        """No definition site of any of `names` can run between CFG node `frm` and the test `to` (not even the same site again, in a
+        later loop iteration)."""
+        PV = self._pv()
+        g = self.A.cfg(fn, sc)
+        try:
+            defs = PV.defs(fn, sc)
+        except AnalysisError:
+            return False
+        between = set()
+        for s_ in g.succ[frm]:
+            between |= g.reachable(s_, avoid={to})
+        for nm in names:
+            for d in defs.get(nm, []):
+                if d.cnode is not None and d.cnode in between:
+                    return False
+        return True
 
     def _derive(self, truth, val, fn, sc, at, depth):
         while isinstance(val, ast.UnaryOp) and isinstance(val.op, ast.Not):
